@@ -1,8 +1,93 @@
 //! Verification hook (compiled only with `--cfg quinn_rs_quinn_verif`).
+//!
+//! Read-only probes of a live `Connection` used by the simulator's trace (Layer C).
 #![allow(missing_docs, dead_code, unused_imports, unreachable_pub, clippy::all)]
 use super::{Ops, Outs};
+use crate::Instant;
+use crate::connection::{Connection, SpaceId, State, Timer};
 
-/// Interpret `ops` for component `comp`; `None` if `comp` is not served by this module.
+fn us(base: Instant, t: Option<Instant>) -> i128 {
+    match t {
+        None => -1,
+        Some(t) => {
+            if t >= base {
+                t.duration_since(base).as_micros() as i128
+            } else {
+                -(base.duration_since(t).as_micros() as i128) - 2
+            }
+        }
+    }
+}
+
+impl Connection {
+    /// Integer snapshot of internal state (layout documented in /verif/harness/src/sim/probe.md):
+    ///  0 state tag (0 Handshake, 1 Established, 2 Closed, 3 Draining, 4 Drained)
+    ///  1 path.validated  2 path.total_sent  3 path.total_recvd
+    ///  4 in_flight.bytes 5 in_flight.ack_eliciting  6 congestion window  7 current mtu
+    ///  8 pto_count  9 close flag  10 sum of sizes of tracked sent packets of the current path generation
+    ///  11 number of tracked ack-eliciting sent packets of the current path generation
+    ///  12 pto(Data) in us  13 idle timeout us (-1 none)  14 prev_path present
+    ///  15 path.challenge present  16 loss_probes summed over spaces  17 permit_idle_reset
+    ///  18.. 26 timer deadlines in us relative to `base` (-1 unset), in `Timer::VALUES` order
+    ///  27 highest space (0 Initial, 1 Handshake, 2 Data) 28 total tracked sent packets (all spaces)
+    ///  29 path_responses pending?  30 app_limited 31 error recorded?
+    pub fn verif_probe(&self, base: Instant) -> Vec<i128> {
+        let st = match self.state {
+            State::Handshake(_) => 0,
+            State::Established => 1,
+            State::Closed(_) => 2,
+            State::Draining => 3,
+            State::Drained => 4,
+        };
+        let mut sum = 0i128;
+        let mut ae = 0i128;
+        let mut tracked = 0i128;
+        let mut probes = 0i128;
+        for sp in [SpaceId::Initial, SpaceId::Handshake, SpaceId::Data] {
+            let space = &self.spaces[sp];
+            probes += space.loss_probes as i128;
+            for (_, p) in space.sent_packets.range(0..u64::MAX) {
+                tracked += 1;
+                if p.path_generation == self.path.generation() {
+                    sum += p.size as i128;
+                    if p.ack_eliciting {
+                        ae += 1;
+                    }
+                }
+            }
+        }
+        let mut v = vec![
+            st,
+            self.path.validated as i128,
+            self.path.total_sent as i128,
+            self.path.total_recvd as i128,
+            self.path.in_flight.bytes as i128,
+            self.path.in_flight.ack_eliciting as i128,
+            self.path.congestion.window() as i128,
+            self.path.current_mtu() as i128,
+            self.pto_count as i128,
+            self.close as i128,
+            sum,
+            ae,
+            self.pto(SpaceId::Data).as_micros() as i128,
+            self.idle_timeout.map_or(-1, |d| d.as_micros() as i128),
+            self.prev_path.is_some() as i128,
+            self.path.challenge.is_some() as i128,
+            probes,
+            self.permit_idle_reset as i128,
+        ];
+        for t in Timer::VALUES {
+            v.push(us(base, self.timers.get(t)));
+        }
+        v.push(self.highest_space as i128);
+        v.push(tracked);
+        v.push(!self.path_responses.is_empty() as i128);
+        v.push(self.app_limited as i128);
+        v.push(self.error.is_some() as i128);
+        v
+    }
+}
+
 pub(crate) fn run(_comp: &str, _ops: &Ops) -> Option<Outs> {
     None
 }
